@@ -98,11 +98,35 @@ class Q:
         self.part.queries += 1
         self.part.solver_s += time.time() - t0
         self.last = s
+        if CROSS["on"] and r != z3.unknown and CROSS["done"] < CROSS["max"]:
+            cross_check(s, r, self.part)
         if r == z3.sat:
             return "sat", s.model()
         if r == z3.unsat:
             return "unsat", None
         return "unknown", None
+
+
+CROSS = {"on": False, "done": 0, "max": 60, "agree": 0, "disagree": [], "other": 0}
+
+
+def cross_check(solver, verdict, part):
+    """diff z3 against cvc5 on the same SMT-LIB text (thorough tier, a sample of the queries)"""
+    CROSS["done"] += 1
+    try:
+        text = "(set-logic ALL)\n" + solver.to_smt2()
+        rc, o, e, _ = common.run(["cvc5", "--lang", "smt2", "--tlimit=20000"], input_text=text, timeout=40)
+        ans = (o or "").strip().splitlines()[-1] if (o or "").strip() else ""
+    except Exception:  # noqa: BLE001
+        ans = ""
+    z = "sat" if verdict == z3.sat else "unsat"
+    if ans in ("sat", "unsat"):
+        if ans == z:
+            CROSS["agree"] += 1
+        else:
+            CROSS["disagree"].append("%s: z3 %s, cvc5 %s" % (part.name, z, ans))
+    else:
+        CROSS["other"] += 1
 
 
 def model_inputs(ex, model):
@@ -373,6 +397,7 @@ def run_specs(prop, tier, only):
         return parts, M_ASSUMPTIONS, {}
     replayer = Replayer()
     all_probes = {}
+    CROSS.update(on=(tier == "thorough"), done=0, agree=0, disagree=[], other=0)
     try:
         for s in todo:
             p = Part("M", s.name, s.about)
@@ -398,6 +423,16 @@ def run_specs(prop, tier, only):
             all_probes.update(ctx.probes)
             log("  [M] %-38s %-12s %6.1fs paths=%d queries=%d %s" % (s.name, p.status, p.wall, ctx.paths, p.queries, p.reason[:120]))
             parts.append(p)
+        if CROSS["on"] and CROSS["done"]:
+            cp = Part("M", "m_solver_cross_check", "a sample of the z3 queries re-decided by cvc5 1.0 on the same SMT-LIB text")
+            cp.queries = CROSS["done"]
+            cp.sample = {"agree": CROSS["agree"], "cvc5_unknown_or_unsupported": CROSS["other"], "disagreements": CROSS["disagree"][:5]}
+            if CROSS["disagree"]:
+                cp.status, cp.reason = "inconclusive", "z3 and cvc5 disagree: %s" % CROSS["disagree"][:3]
+            else:
+                cp.status = "pass"
+            log("  [M] %-38s %-12s        agree=%d other=%d disagree=%d" % (cp.name, cp.status, CROSS["agree"], CROSS["other"], len(CROSS["disagree"])))
+            parts.append(cp)
         compared = 0
         if all_probes and not only:
             compared, vp = validate_probes(all_probes, replayer)
